@@ -254,6 +254,20 @@ def run(ctx, R, tier):
             R.add("C18-R3", "_handshake|refusal-header-names-its-encoding", o.desc + " (a refused client must be able to decode the reason)", o.ok, o.loc, o.detail)
         if o.key == "C08-R4|_handshake|failure-answer-serializer-known":
             R.add("C18-R3", "_handshake|refusal-encodable", o.desc + " (the pool-full refusal is such a failure answer)", o.ok, o.loc, o.detail)
+    # a refusal is decided before anything of the refused peer's CONNECT is interpreted: in _handshake the denied_reason exit comes before the payload is decoded and before
+    # the application's validator runs (denyConnection runs on the accept thread: user code there stalls all accepts, and a refused peer would get the validator's verdict
+    # and side effects instead of the refusal)
+    hsf = ctx.fn("Pyro5.server.Daemon._handshake")
+    hcfg_ = ctx.cfg(hsf)
+
+    def not_denied_(atom, pol):
+        return pol is False and isinstance(atom, ast.Name) and atom.id == "denied_reason"
+    user_sites = [c for c in ctx.calls_to(hsf, "Pyro5.server.Daemon.validateHandshake")]
+    user_sites += [c for c, _ in ctx.cg.calls_of(hsf) if isinstance(c.func, ast.Attribute) and c.func.attr in ("loads", "loadsCall")]
+    okr = bool(user_sites) and all(hcfg_.guarded(n, lambda e: edge_has_fact(e, not_denied_)) for c in user_sites for n in ctx.node_of(hsf, c))
+    R.check(okr, "C18-R3", "_handshake|refusal-before-user-code", "the payload is decoded and the validator runs only when no denied_reason was given", hsf.loc(user_sites[0]) if user_sites else hsf.loc(),
+            "a connection that is being refused (no free workers) still has its CONNECT payload deserialised and the application's handshake validator run - on the accept thread, "
+            "with the validator's side effects and possibly its verdict instead of the refusal")
     # nothing that can fail runs in denyConnection outside the try/finally that closes the refused socket
     outside = [st for st in dcf.node.body if not isinstance(st, ast.Try) and not (isinstance(st, ast.Expr) and isinstance(st.value, ast.Constant))]
     fallible = [st for st in outside if not (isinstance(st, ast.Expr) and isinstance(st.value, ast.Call) and unparse(st.value.func).startswith("log.")
